@@ -824,6 +824,22 @@ pub fn run(rep: &'static Report) {
         longer.push(0);
         strs.push(r::b64(&longer));
     }
+    // a key whose encoding contains both '+' and '/' (searched among derived keys): each of them, and all of them, replaced by
+    // the URL-safe letters '-' and '_' -- another alphabet, so not the encoding of that key
+    if let Some(k) = (0..5000u32).map(|i| r::x25519_base(&derive32(seed, &format!("c17-plus-slash-{}", i)))).find(|k| { let e = r::encode_pk(k); e.contains('+') && e.contains('/') }) {
+        let e = r::encode_pk(&k);
+        strs.push(e.clone());
+        strs.push(e.replace('+', "-"));
+        strs.push(e.replace('/', "_"));
+        strs.push(e.replace('+', "-").replace('/', "_"));
+        for (i, c) in e.char_indices() {
+            if c == '+' || c == '/' {
+                let mut v: Vec<char> = e.chars().collect();
+                v[i] = if c == '+' { '-' } else { '_' };
+                strs.push(v.into_iter().collect());
+            }
+        }
+    }
     let valid: Vec<char> = r::encode_pk(&ids[0].pk).chars().collect();
     let classes: Vec<char> = rep.tier.pick(vec!['A', 'B', '=', ' ', '-', '\u{e9}'], vec!['A', 'B', 'z', '9', '+', '/', '=', '-', '_', ' ', '\0', '\n', '\u{e9}']);
     for i in 0..valid.len() {
